@@ -229,7 +229,7 @@ class Concrete:
         kw["netv"] = nv
         kw["uid"] = z3.IntVal(st["uid"])
         kw["frozen"] = z3.BoolVal(bool(st.get("frozen")))
-        sh = Shadow("concrete", False)
+        sh = Shadow(z3.BoolVal(bool(st.get("frozen"))), [])
         for nm in st.get("shadow", []):
             sh.set(nm)
         kw["shadow"] = sh
@@ -288,6 +288,37 @@ def evaluate(spec, case, outcome, props=None):
         dom.append(res["val"])
     K = Concrete(labels, domain=dom)
     c = K.c
+    # set-valued quantifiers: every clause guards its set variable by `subset of a member set /
+    # of an argument's content`, so the subsets of those (bounded in size) are a complete domain
+    import itertools
+    bases = []
+    for st in list(outcome["pre"].values()) + list(outcome["post"].values()) + ([res["net"]] if res and "net" in res else []):
+        if st["kind"] != "DH":
+            for row in st["edge"]:
+                bases.append([x for x in row[1]])
+    for name, kind, e in case["params"]:
+        if e is not None and not kind.startswith("net") and e[0] in ("t", "fs", "set", "l", "it"):
+            bases.append([x for x in e[1] if Concrete._hashable(x)])
+            for x in e[1]:
+                if x[0] in ("t", "fs", "set", "l", "it"):
+                    bases.append([y for y in x[1] if Concrete._hashable(y)])
+                    for y in x[1]:
+                        if y[0] in ("t", "fs", "set", "l", "it"):
+                            bases.append([z for z in y[1] if Concrete._hashable(z)])
+        if e is not None and not kind.startswith("net") and e[0] == "d":
+            for kk, vv in e[1]:
+                if vv[0] in ("t", "fs", "set", "l", "it"):
+                    bases.append([y for y in vv[1] if Concrete._hashable(y)])
+    seen, dom_sets = set(), []
+    for b in bases:
+        b = b[:7]
+        for r in range(len(b) + 1):
+            for sub in itertools.combinations(b, r):
+                key = tuple(sorted(lkey(x) for x in sub))
+                if key not in seen:
+                    seen.add(key)
+                    dom_sets.append(K.setof(list(sub)))
+    c.set_domain = dom_sets or [c.EMPTY]
     A = Args()
     for name, kind, e in case["params"]:
         if kind.startswith("net"):
@@ -303,12 +334,29 @@ def evaluate(spec, case, outcome, props=None):
             for k, x in e[1]:
                 av = z3.Store(av, K.id[lkey(k)], K.id[lkey(x)])
             A.v[name] = VAttr(has, av)
+        elif kind in ("fset", "set"):
+            from .values import VSet
+            A.v[name] = VSet(K.setof([x for x in e[1]]), frozen=(kind == "fset"))
         else:
             A.v[name] = VVal(K.id[lkey(e)])
     post = {k: K.snap(v) for k, v in outcome["post"].items()}
     result = None
     if res and "val" in res and res["val"][0] != "x":
-        result = VVal(K.id[lkey(res["val"])])
+        rv = res["val"]
+        rk = getattr(spec, "result", None)
+        if rk == "bool" and rv[0] in ("b", "i"):
+            result = VBool(bool(rv[1]))
+        elif rk == "int" and rv[0] in ("b", "i"):
+            result = VInt(int(rv[1]))
+        elif rk in ("list", "set") and rv[0] in ("l", "t", "set", "fs"):
+            from .values import VList, VSet
+            if rk == "list":
+                result = VList(None, z3.IntVal(len(rv[1])), None)
+                result.content = K.setof([x for x in rv[1] if Concrete._hashable(x)])
+            else:
+                result = VSet(K.setof([x for x in rv[1] if Concrete._hashable(x)]))
+        else:
+            result = VVal(K.id[lkey(rv)])
     if res and "net" in res:
         result = K.snap(res["net"])
     exc = outcome["exc"]
